@@ -23,6 +23,9 @@ func (it *Interp) callBuiltin(fr *frame, b *Builtin, ca callArgs) (x *ExcV) {
 			panic(r)
 		}
 	}()
+	saved := it.curBuiltin
+	it.curBuiltin = b.Name
+	defer func() { it.curBuiltin = saved }()
 	return b.fn(it, fr, ca)
 }
 
@@ -141,6 +144,7 @@ func (it *Interp) inputsFrom(fr *frame, arg Value, hasArg bool) (items []Value, 
 	}
 	switch a := arg.(type) {
 	case *ListV:
+		it.shape(a.Items, false)
 		return a.Items, false
 	case string:
 		if !isASCII(a) {
@@ -318,6 +322,9 @@ func bEach(it *Interp, fr *frame, ca callArgs) *ExcV {
 		return nil
 	}
 	it.kind("each-pipe")
+	if fr.in.isPipe && !fr.in.partial {
+		it.shape(fr.in.items[fr.in.pos:], true)
+	}
 	// the callback must not read the same input
 	sub := *fr
 	sub.in = &pipeBuf{}
@@ -415,10 +422,16 @@ func bTake(it *Interp, fr *frame, ca callArgs) *ExcV {
 	it.kind("take")
 	if len(ca.args) == 2 {
 		items, _ := it.inputsFrom(fr, ca.args[1], true)
+		it.countShape(n, len(items))
 		for i := 0; i < n && i < len(items); i++ {
 			it.putValue(fr, items[i])
 		}
 		return nil
+	}
+	if fr.in.isPipe && !fr.in.partial {
+		rest := fr.in.items[fr.in.pos:]
+		it.shape(rest, true)
+		it.countShape(n, len(rest))
 	}
 	for i := 0; i < n; i++ {
 		v, ok := it.nextInput(fr)
@@ -444,6 +457,7 @@ func bDrop(it *Interp, fr *frame, ca callArgs) *ExcV {
 	}
 	it.kind("drop")
 	items := it.allInputs(fr, ca, 1, true)
+	it.countShape(n, len(items))
 	for i := n; i < len(items); i++ {
 		it.putValue(fr, items[i])
 	}
@@ -462,8 +476,10 @@ func bCount(it *Interp, fr *frame, ca callArgs) *ExcV {
 	}
 	switch a := ca.args[0].(type) {
 	case *ListV:
+		it.shape(a.Items, false)
 		it.putValue(fr, intNum(int64(len(a.Items))))
 	case *MapV:
+		it.mapShape(a)
 		it.putValue(fr, intNum(int64(len(a.Keys))))
 	case string:
 		it.putValue(fr, intNum(int64(len(a))))
@@ -701,6 +717,7 @@ func bKeys(it *Interp, fr *frame, ca callArgs) *ExcV {
 		unspec("keys of a %s", kindOf(ca.args[0]))
 	}
 	it.kind("keys")
+	it.mapShape(m)
 	if len(m.Keys) > 1 {
 		// "there is no guaranteed order for the keys of a map"
 		if !fr.out.isPipe || len(fr.out.items) != 0 {
@@ -719,8 +736,12 @@ func bKeys(it *Interp, fr *frame, ca callArgs) *ExcV {
 func (it *Interp) hasKey(c, k Value) bool {
 	switch c := c.(type) {
 	case *MapV:
+		it.mapShape(c)
 		return c.find(k) >= 0
 	case *ListV, string:
+		if l, ok := c.(*ListV); ok {
+			it.shape(l.Items, false)
+		}
 		length := 0
 		if l, ok := c.(*ListV); ok {
 			length = len(l.Items)
@@ -771,8 +792,10 @@ func bHasValue(it *Interp, fr *frame, ca callArgs) *ExcV {
 	var vals []Value
 	switch c := ca.args[0].(type) {
 	case *ListV:
+		it.shape(c.Items, false)
 		vals = c.Items
 	case *MapV:
+		it.mapShape(c)
 		vals = c.Vals
 	default:
 		unspec("has-value on a %s", kindOf(c))
@@ -794,6 +817,7 @@ func bAssoc(it *Interp, fr *frame, ca callArgs) *ExcV {
 	it.kind("assoc")
 	switch c := ca.args[0].(type) {
 	case *ListV:
+		it.shape(c.Items, false)
 		if s, ok := ca.args[1].(string); ok {
 			if _, _, _, isSlice := parseSlice(s); isSlice {
 				unspec("assoc with a slice")
@@ -807,6 +831,7 @@ func bAssoc(it *Interp, fr *frame, ca callArgs) *ExcV {
 		n.Items[i] = ca.args[2]
 		it.putValue(fr, n)
 	case *MapV:
+		it.mapShape(c)
 		it.putValue(fr, c.assoc(ca.args[1], ca.args[2]))
 	default:
 		unspec("assoc on a %s", kindOf(c))
@@ -828,6 +853,7 @@ func bDissoc(it *Interp, fr *frame, ca callArgs) *ExcV {
 		unspec("dissoc on a %s", kindOf(ca.args[0]))
 	}
 	it.kind("dissoc")
+	it.mapShape(m)
 	it.putValue(fr, m.dissoc(ca.args[1]))
 	return nil
 }
@@ -846,6 +872,7 @@ func bConj(it *Interp, fr *frame, ca callArgs) *ExcV {
 		unspec("conj on a %s", kindOf(ca.args[0]))
 	}
 	it.kind("conj")
+	it.shape(l.Items, false)
 	n := &ListV{Items: append(append([]Value(nil), l.Items...), ca.args[1:]...)}
 	it.putValue(fr, n)
 	return nil
